@@ -898,6 +898,10 @@ class Engine:
       if r is not None and isinstance(target.value, ast.Name):
         # weak update of the content abstraction of a local array
         st.vars[target.value.id] = base.with_(d=r)
+      elif r is not None and isinstance(target.value, ast.Attribute):
+        ov = self.eval(target.value.value, st, func)
+        if ov.obj is not None:
+          st.vars[(ov.obj.oid, target.value.attr)] = base.with_(d=r)
     elif isinstance(target, ast.Starred):
       self.assign(target.value, v, st, func, stmt)
 
@@ -1000,7 +1004,7 @@ class Engine:
                fn=('ext', canon(d)))
     if objv.kv is not None and attr in ('get', 'items', 'keys'):
       pass
-    return V(self.dom.attr(objv, attr, node, st))
+    return self._wrap(self.dom.attr(objv, attr, node, st))
 
   def ev_Attribute(self, e, st, func):
     # dotted library names first (np.inf, np.newaxis, np.linalg.eigh ...)
@@ -1576,6 +1580,12 @@ class Engine:
     bound = {}
     extra_pos = []
     for i, v in enumerate(args):
+      if v.origin == '*':
+        # *expr of unknown length: it supplies every remaining positional
+        for p in pos[i:]:
+          if p not in kwargs:
+            bound.setdefault(p, v.with_(origin=None))
+        break
       if i < len(pos):
         bound[pos[i]] = v
       else:
